@@ -143,7 +143,7 @@ class SequenceContainer(common.Parseable, common.XmlObject):
                    entry_list=entry_list,
                    base_container_name=base_container_name,
                    restriction_criteria=restriction_criteria,
-                   abstract=(element.attrib['abstract'].lower() == 'true') if 'abstract' in element.attrib else False,
+                   abstract=(element.attrib['abstract'].lower() in ('true', '1')) if 'abstract' in element.attrib else False,
                    short_description=short_description,
                    long_description=long_description)
 
@@ -295,5 +295,5 @@ class SequenceContainer(common.Parseable, common.XmlObject):
             True if SequenceContainer element has the attribute abstract=true. False otherwise.
         """
         if 'abstract' in container_element.attrib:
-            return container_element.attrib['abstract'].lower() == 'true'
+            return container_element.attrib['abstract'].lower() in ('true', '1')
         return False
